@@ -100,7 +100,10 @@ def main():
         if abs(est - tgt) > 0.02 * tgt:
             h.fail('within_2pct', {'distinct': tgt, 'family': 'v<i>, one-more, w<i> with interleaved duplicates'}, f'estimate {est}')
     # other input families beyond the warm-up: zero-padded ids, hexadecimal counters, strided ids (values that LOOK like digests)
-    for fam_name, fmt in (('%08d', lambda i_: '%08d' % i_), ('%08x', lambda i_: '%08x' % i_), ('%08x stride 2^19', lambda i_: '%08x' % ((i_ * 524288) % 4294967291))):
+    for fam_name, fmt in (('%08d', lambda i_: '%08d' % i_), ('%08x', lambda i_: '%08x' % i_), ('%08x stride 2^19', lambda i_: '%08x' % ((i_ * 524288) % 4294967291)),
+                          ('long values with a common 90-character prefix', lambda i_: 'https://example.org/' + 'segment/' * 9 + str(i_)),
+                          ('long values with a common 90-character suffix', lambda i_: str(i_) + '/tail' * 18),
+                          ('non-ASCII values', lambda i_: 'é中' * 3 + str(i_) + 'ü')):
         skx = HLL(0.02)
         n_x = W + (40000 if quick else 300000)
         for i_ in range(n_x):
